@@ -305,6 +305,7 @@ def c09_predefined(ctx):
     from rules.shared import cfg_accessors
     cfg_accessors(ctx, only=('predefined_symbols',))
     # the replacement text of a configured symbol is the text of its value (a YAML number arrives as an int)
+    ctx.rule('C09.7', 'a configured symbol is defined with the text of its configured value; an empty value stays empty', 1)
     pi = ctx.repo.func('bespokeasm.assembler.preprocessor.Preprocessor.__init__')
     cs = [c for c in ast.walk(pi.node) if isinstance(c, ast.Call) and unparse(c.func) == 'self.create_symbol']
     ok = len(cs) == 1 and len(cs[0].args) >= 2
@@ -396,7 +397,7 @@ MUTANTS += [
         if self._symbols.setdefault(name, symbol) != symbol:
             raise ValueError(f'Symbol {name} already exists')
         return symbol''', 'C09.3'),
-    V('c09-config-value-str', _P, "self.create_symbol(symbol_def['name'], symbol_def.get('value', ''))", "self.create_symbol(symbol_def['name'], str(symbol_def.get('value', '')))", 'C09.3'),
+    V('c09-config-value-str', _P, "self.create_symbol(symbol_def['name'], '' if value is None else str(value))", "self.create_symbol(symbol_def['name'], str(value))", 'C09.7'),
 ]
 TWINS = [
     V('c09-t-fstring-pattern', _P, "r'\\b' + re.escape(s) + r'\\b',", "rf'\\b{re.escape(s)}\\b',"),
